@@ -1638,7 +1638,9 @@ func (r *stack) lock() {
 			sc, _ := r.config()
 			_now := now()
 			sc.ldr = &_now
+			verifPoint("lock.want", r)
 			mutex.Lock()
+			verifPoint("lock.held", r)
 		}
 	}
 }
@@ -1652,6 +1654,7 @@ func (r *stack) unlock() {
 	if r.canMutex() {
 		if mutex, found := r.mutex(); found {
 			mutex.Unlock()
+			verifPoint("lock.released", r)
 			sc, _ := r.config()
 			sc.ldr = nil
 		}
@@ -1665,6 +1668,7 @@ is nil OR if the error (err) is non-nil, the receiver is deemed
 totally invalid and unusable.
 */
 func (r *stack) config() (sc *nodeConfig, err error) {
+	verifPoint("cfg.read", r)
 	if r != nil {
 		var ok bool
 		// verify slice #0 is a *nodeConfig
